@@ -54,9 +54,15 @@ RULE = (
     "of length <= 40 (also namespace_key off, environment globals, globals={} and both "
     "failure kinds); plus all interleavings of 2-3 concurrent get_template_async callers "
     "on a gated loader; plus LRUCache/ThreadSafeLRUCache differential op sequences and a "
-    "thread stress.  distinct = hash of (configuration, steps); non-trivial = the history "
+    "thread stress.  distinct = hash of (configuration, steps) (thorough: every 16th hash is "
+    "kept, the counter nontrivial_histories is complete); non-trivial = the history "
     "contains >= 1 cache hit, >= 1 miss and >= 1 of {modify, delete, injected failure, "
-    "eviction} according to the reference model."
+    "eviction} according to the reference model.  Violation keys: symptom category "
+    "(stale-globals, stale-source@family, lru-order:*, namespace-leak, wrong-template, "
+    "error-class:<got>-instead-of-<expected>@family, capacity-exceeded) + pattern of the "
+    "minimised history; when the minimal history needs an async load (or a namespace) and "
+    "its all-sync (namespace-free) twin history shows no divergence the key is "
+    "async-path-only:<symptom>:<step forms> (namespace-path-only:...)."
 )
 ASSUMPTIONS = [
     "liquid2's parser and renderer are the trusted base here: the expected text is the "
@@ -70,6 +76,10 @@ ASSUMPTIONS = [
     "eviction is observed without reading the cache's internals",
     "an injected failure fires at the next consultation of the source; when a resident "
     "entry is verified fresh both 'answered from the cache' and 'consulted and failed' are accepted",
+    "looking a resident key up counts as a use of that key even when the reload it triggers fails",
+    "with auto_reload on and a source kind that has freshness information (files) the "
+    "expected answer is always what the uncached twin returns now — including the case where "
+    "a file created in an earlier ChoiceLoader member shadows the file the entry came from",
     "exhaustive file-system histories run liquid2's async path on a real event loop whose "
     "default executor runs inline; random histories use the real thread-pool executor",
     "thread stress checks invariants only at quiescent points; it cannot prove absence of races",
@@ -511,12 +521,27 @@ class Divergence:
         self.view = view
 
 
+def _sweep_stale(base: str) -> None:
+    """Remove scratch directories left by workers that were killed (older than 6 h)."""
+    import time
+
+    try:
+        for fn in os.listdir(base):
+            if fn.startswith("vf-c14-"):
+                p = os.path.join(base, fn)
+                if time.time() - os.stat(p).st_mtime > 6 * 3600:
+                    shutil.rmtree(p, ignore_errors=True)
+    except OSError:
+        pass
+
+
 class Harness:
     def __init__(self, ctx: Ctx, *, inline_executor: bool = True, with_site: bool = False):
         self.ctx = ctx
         self.with_site = with_site
         k = K()
         base = "/dev/shm" if os.path.isdir("/dev/shm") and os.access("/dev/shm", os.W_OK) else None
+        _sweep_stale(base or tempfile.gettempdir())
         self.root = tempfile.mkdtemp(prefix="vf-c14-", dir=base)
         self.envs = {0: k.Environment(), 1: k.Environment(globals={"site": "S"})}
         self.twin_envs = {0: k.Environment(), 1: k.Environment(globals={"site": "S"})}
@@ -528,6 +553,8 @@ class Harness:
         self.min_budget = 60
         self._pat_fails: dict[tuple[str, str], bool] = {}
         self.diag = False
+        self.nt_mod = 1  # record every nt_mod-th non-trivial history hash (thorough: 16)
+        self._ntc = 0
         self.full_twin = False
         self.last_loader: Any = None
         self.last_model: ref.RefLRU | None = None
@@ -732,7 +759,10 @@ class Harness:
                 ctx.count("model_evictions", model.evictions)
                 saw_other = True
             if saw_hit and saw_miss and saw_other:
-                ctx.nt(cfg_id(cfg), tuple(ops))
+                ctx.count("nontrivial_histories")
+                self._ntc += 1
+                if self._ntc % self.nt_mod == 0:
+                    ctx.nt(cfg_id(cfg), tuple(ops))
         return None
 
     # -- classification ---------------------------------------------------------
@@ -840,6 +870,7 @@ class Harness:
         if cat == "capacity-exceeded":
             return cat
         loads = [o for o in small if o.kind == "load"]
+        base = cat.split(":")[0].split("@")[0]
 
         def forms(pred: Callable[[Op], bool]) -> str:
             out = set()
@@ -853,13 +884,13 @@ class Harness:
             twin = [o._replace(mode=0) if o.kind == "load" else o for o in small]
             self.ctx.count("minimiser_runs")
             if self.run_history(cfg, twin, record=False) is None:
-                return "async-path-only:" + forms(lambda o: bool(o.mode))
+                return f"async-path-only:{base}:" + forms(lambda o: bool(o.mode))
         if any(o.ns for o in loads):
             twin = [o._replace(ns=0, via=0) if o.kind == "load" else o for o in small]
             self.ctx.count("minimiser_runs")
             if self.run_history(cfg, twin, record=False) is None:
-                return "namespace-path-only:" + forms(lambda o: bool(o.ns))
-        return f"{cat}:{ref.pattern(small, cat)}"
+                return f"namespace-path-only:{base}:" + forms(lambda o: bool(o.ns))
+        return f"{cat}:{ref.pattern(ref.sort_commuting(small), cat)}"
 
     def report(self, cfg: dict[str, Any], ops: list[Op], d: Divergence, origin: str) -> str:
         """Turn a divergence at the last executed step into a keyed violation."""
@@ -1122,6 +1153,15 @@ def _exh(h: Harness, spec: dict[str, Any], ctx: Ctx) -> None:
     cfg = spec["cfg"]
     tier = spec["tier"]
     ctx.seen("configs", cfg_id(cfg))
+    if tier != "quick":
+        h.nt_mod = 16  # keep the merged hash set small; 'nontrivial_histories' is the full count
+    if spec["i"] == 0 and cfg["cap"] == 1 and cfg["auto"]:
+        ctx.note(
+            f"enumerated family [{cfg['family']}, {tier}]: "
+            + "; ".join(f"length {ln}: {kw or 'sync/async per step'}"
+                        for ln, kw in exh_plan(tier, cfg["family"], 2))
+            + (" (capacity 3: lengths <= 3 only)" if tier == "quick" else "")
+        )
     idx = 0
     i, n = spec["i"], spec["n"]
     sample = None
